@@ -26,7 +26,12 @@ open Bytes Gen
 def isSpaceB (b : UInt8) : Bool := b == 32 || (9 ≤ b && b ≤ 13)
 def isDigitB (b : UInt8) : Bool := 48 ≤ b && b ≤ 57
 
-def renderNat (n : Nat) : Bytes := (Nat.toDigits 10 n).map (fun c => UInt8.ofNat c.toNat)
+/-- decimal digits of `n`, most significant first (`f` is fuel, `n < f`) -/
+def natDigits : Nat → Nat → Bytes
+  | 0, _ => []
+  | f + 1, n => if n < 10 then [UInt8.ofNat (48 + n)] else natDigits f (n / 10) ++ [UInt8.ofNat (48 + n % 10)]
+
+def renderNat (n : Nat) : Bytes := natDigits (n + 1) n
 
 /-- `printf("%" PRId64)` -/
 def renderInt (i : Int) : Bytes :=
@@ -34,18 +39,15 @@ def renderInt (i : Int) : Bytes :=
 
 def digitsVal (ds : Bytes) : Nat := ds.foldl (fun acc d => 10 * acc + (d.toNat - 48)) 0
 
+def parseDigits (ds : Bytes) : Option Nat :=
+  if ds.isEmpty || !ds.all isDigitB then none else some (digitsVal ds)
+
 /-- `strtoll` + full consumption: `isspace* [+-]? digit+`, no range check. -/
 def parseDecimal (s : Bytes) : Option Int :=
-  let s1 := s.dropWhile isSpaceB
-  let (neg, ds) :=
-    match s1 with
-    | 45 :: r => (true, r)
-    | 43 :: r => (false, r)
-    | r => (false, r)
-  if ds.isEmpty || !ds.all isDigitB then none
-  else
-    let v : Int := digitsVal ds
-    some (if neg then -v else v)
+  match s.dropWhile isSpaceB with
+  | 45 :: r => (parseDigits r).map (fun v => -(v : Int))
+  | 43 :: r => (parseDigits r).map (fun v => (v : Int))
+  | r => (parseDigits r).map (fun v => (v : Int))
 
 def i64Min : Int := -9223372036854775808
 def i64Max : Int := 9223372036854775807
